@@ -148,6 +148,7 @@ fn run_family(family: &str, tier: Tier, sink: &Sink) {
             let mut named: Vec<String> = crate::c05::naming_sources();
             named.extend(crate::c05::chain_sources());
             named.extend(crate::c10::name_probe_files());
+            named.extend(crate::names::relation_sources(tier.pick(2, 3)));
             named.par_iter().for_each(|s| sink.feed(s));
             let m = tier.pick(3usize, 4usize);
             let items = crate::c10::item_alphabet();
